@@ -211,6 +211,11 @@ func genSession(g *vh.Gen, idx int, big bool) (string, string, string) {
 	if idx%2 == 1 {
 		flavour = "file"
 	}
+	capN := 0
+	if g.Chance(0.12) {
+		capN = 1 + g.Intn(5)
+		flavour += ":" + strconv.Itoa(capN)
+	}
 	user := g.Pick(users...)
 	n := g.Intn(9)
 	if g.Chance(0.1) {
@@ -250,7 +255,11 @@ func genSession(g *vh.Gen, idx int, big bool) (string, string, string) {
 			if g.Chance(0.2) {
 				box = other
 			}
-			switch r := g.Intn(10); {
+			r := g.Intn(10)
+			if capN > 0 && g.Chance(0.5) {
+				r = 0
+			}
+			switch {
 			case r < 4:
 				e.add("d" + vh.HS(box) + ":" + vh.H(genSource(g, false)))
 				delivered[box]++
@@ -312,6 +321,11 @@ func genSession(g *vh.Gen, idx int, big bool) (string, string, string) {
 	case g.Chance(0.1):
 		e.add("w")
 		e.client(g, g.Pick("QUIT", "DELE 1", "NOOP")+"\r\n")
+	case g.Chance(0.25):
+		e.add(g.Pick("t", "r"))
+		if g.Chance(0.3) {
+			e.client(g, "QUIT\r\n")
+		}
 	}
 	external(0.1)
 	evs := "-"
